@@ -404,6 +404,15 @@ func ClientRun(osenv *rsyncos.Env, opts *rsyncopts.Options, conn io.ReadWriter, 
 		}
 	}
 
+	if opts.DeleteMode() {
+		// Entries the user's rules exclude are protected from --delete.
+		exclusionList, err := sender.ParseFilterList(opts.FilterRules())
+		if err != nil {
+			return nil, err
+		}
+		rt.Filter = exclusionList
+	}
+
 	for _, rule := range opts.FilterRules() {
 		c.WriteInt32(int32(len(rule)))
 		c.WriteString(rule)
